@@ -95,11 +95,27 @@ def run(ctx):
         msgs = upper_bound_oracle(r['log']) if kind in ('pool', 'coll') else []
         if msgs and len(ctx.violations) < 3:
             ctx.violation('%s:%s/%s' % (kind, tgt, c), 'C18 fails on the implementation: ' + msgs[0], dict(config=c, script=r['case']['script'].split('\n')))
+    # (3) the maximum a bucket array reports must stay true through moves (arrays built for different maxima assigned onto each other)
+    from checks import c19
+    aexe = build.build_harness('arith', 'base', ['h_arith.cpp'], extra=['-fno-access-control'])
+    mcases = [(lt, pol, mx, mode) for lt in (0, 1, 2) for pol in (0, 1) for mx in (9, 16, 64, 100, 200) for mode in (0, 1, 2)]
+    mout = proc.run([aexe], input='\n'.join('bucket_max %x %x %x %x' % c for c in mcases) + '\n', timeout=120).stdout
+    maxima_checked = 0
+    for ln in mout.split('\n'):
+        if ' = ' not in ln:
+            continue
+        lhs, rhs = ln.split(' = '); toks = lhs.split(); args = tuple(int(x, 16) for x in toks[1:]); maxima_checked += 1
+        why = c19.oracle(toks[0], args, int(rhs, 16))
+        if why and len(ctx.violations) < 3:
+            ctx.violation('bucket_max(%s)' % ','.join('%d' % a for a in args), 'C18 fails on the implementation: a reported maximum is not true: ' + why,
+                          dict(harness='h_arith.cpp', config='base', input=lhs, output=ln))
+    if maxima_checked != len(mcases):
+        ctx.tie_broken.append('bucket maxima: %d of %d answers' % (maxima_checked, len(mcases)))
     ctx.tie_broken = ctx.tie_broken[:6]
     ctx.cov.update(dict(
         tie=dict(kind='(1) real free lists / pools built from min_block_size(ns, n): node count compared with the carving model and with n, block size with the generated formula; (2) capacity_left / pool_capacity_left / next_capacity compared with the models after every operation of seeded histories',
                  enumeration_cases=enum_total, enumeration_exhaustive_over_stated_domain=thorough, enumeration_divergences=enum_div,
-                 configs=cfgs, histories_by_kind=per, histories=len(cases), operations=ops, divergences=div),
+                 configs=cfgs, histories_by_kind=per, histories=len(cases), operations=ops, bucket_maxima_checked=maxima_checked, divergences=div),
         evaluations=enum_total + len(cases), distinct_nontrivial=len(set(lines)) + len(set(c['script'] for c in cases)),
         rule='list type x node size x node count around chunk boundaries (255k-1,255k,255k+1) and seeded; thorough: the complete domain node size 1..512 x count 1..2000 x 3 list types; plus seeded histories; distinct = distinct inputs/scripts'))
     ctx.samples += [l for l in out.stdout.split('\n')[:3]] + [dict(target=res[-1]['case']['tag'], log=res[-1]['log'].split('\n')[:6])]
